@@ -517,7 +517,7 @@ impl Prop for C06 {
         Some("tape")
     }
     fn rule(&self) -> String {
-        "(i) operator grid: every implemented operator x widths {1,2,7,8,31,32,33,63,64,65,127,128,129,130,192,200} x all pairs of ~18 corner operand values (exhaustive over the grid); (ii) tape-decoded expression DAGs without div/rem over widths {1,2-8,31-33,63-65,127-129,130-200} with sparse/dense array values, evaluated through eval_expr/eval_bv_expr/eval_array_expr and all value stores, plus short-circuit cases (value supplied for an inner node, symbols below it left undefined). Oracle: independent BigUint evaluator; canonicity = no bits above width, == canonical via PartialEq, interns to same literal. Non-trivial: grid case (each distinct op/width/operand tuple), or DAG case with >=3 operators and >=1 operand wider than 64 bits; distinct by hash of (expression, assignment).".into()
+        "(i) operator grid: every implemented operator x widths {1,2,7,8,31,32,33,63,64,65,127,128,129,130,192,200} x all pairs of ~18 corner operand values (exhaustive over the grid); (ii) tape-decoded expression DAGs without div/rem over widths {1,2-8,31-33,63-65,127-129,130-200} with sparse/dense array values, evaluated through eval_expr/eval_bv_expr/eval_array_expr and all value stores, plus short-circuit cases (value supplied for an inner node, symbols below it left undefined) and store histories (a SymbolValueStore defined with one assignment, overwritten through update_bv / update_array / update with the next, then evaluated). Oracle: independent BigUint evaluator; canonicity = no bits above width, == canonical via PartialEq, interns to same literal. Non-trivial: grid case (each distinct op/width/operand tuple), or DAG case with >=3 operators and >=1 operand wider than 64 bits; distinct by hash of (expression, assignment).".into()
     }
     fn assumptions(&self) -> Vec<String> {
         vec![
@@ -571,6 +571,7 @@ impl Prop for C06 {
         let mut rng = SplitMix(hash_bytes(tape));
         let n_assign = 3;
         let has_arrays = syms.iter().any(|s| s.get_type(ctx).is_array());
+        let mut prev_env: Option<Env> = None;
         for k in 0..n_assign {
             let env = random_env(ctx, &syms, &mut rng);
             rec.eval();
@@ -594,6 +595,72 @@ impl Prop for C06 {
                 }
             }
             check_eval(ctx, &env, root, k % 2 == 1, k as u32)?;
+
+            // history on one store: symbols defined with the previous assignment are overwritten through
+            // the update entry points (update_bv / update_array / update), then the root is evaluated
+            if let Some(prev) = prev_env.as_ref() {
+                let exp = refeval::eval(ctx, &env, root).map_err(|e| Failure::new("harness/refeval", e))?;
+                let mut store = store_of(ctx, prev, k % 2 == 0);
+                let mut keys: Vec<ExprRef> = env.keys().copied().collect();
+                keys.sort();
+                let via_value = rng.below(2) == 0;
+                let upd = guard(|| {
+                    for s in keys.iter() {
+                        match &env[s] {
+                            Val::Bv(b) => {
+                                if via_value {
+                                    store.update(*s, Value::BitVec(b.to_baa()))
+                                } else {
+                                    store.update_bv(*s, &b.to_baa())
+                                }
+                            }
+                            Val::Arr(a) => {
+                                if via_value {
+                                    store.update(*s, Value::Array(a.to_baa(k % 2 == 1)))
+                                } else {
+                                    store.update_array(*s, a.to_baa(k % 2 == 1))
+                                }
+                            }
+                        }
+                    }
+                    eval_expr(ctx, &store, root)
+                });
+                let show_envs = |ctx: &Context, e: &Env| -> String {
+                    let mut v: Vec<String> = e.iter().map(|(k, v)| format!("{}={}", refeval::show(ctx, *k), v.short())).collect();
+                    v.sort();
+                    v.join(" ")
+                };
+                match upd {
+                    Err(p) => {
+                        // evaluation panics of listed findings surface here as well: same signatures as above
+                        if let Some((tail, detail)) = localise(ctx, &env, root) {
+                            return Err(Failure::new(format!("eval/{}", tail), detail));
+                        }
+                        return Err(Failure::new(
+                            format!("eval/store-update/{}", p.class()),
+                            format!("panic {}:{} {}\nexpr: {}", p.file, p.line, p.msg, refeval::show(ctx, root)),
+                        ));
+                    }
+                    Ok(got) => {
+                        if let Err((kind, msg)) = compare_value(ctx, &got, &exp) {
+                            // a plain evaluation defect (fresh store) has been reported by check_eval above
+                            return Err(Failure::new(
+                                format!("eval/store-update/{}", kind),
+                                format!(
+                                    "{}\nexpr: {}\nstore defined with: {}\nthen updated ({}) to: {}",
+                                    msg,
+                                    refeval::show(ctx, root),
+                                    show_envs(ctx, prev),
+                                    if via_value { "update" } else { "update_bv/update_array" },
+                                    show_envs(ctx, &env)
+                                ),
+                            ));
+                        }
+                        rec.label("store-updated-in-place");
+                    }
+                }
+            }
+            prev_env = Some(env.clone());
 
             // other value stores (bit-vector only symbols)
             if !has_arrays && root.get_type(ctx).is_bit_vector() {
